@@ -20,7 +20,7 @@ const (
 	corpusBase = 1500000
 	enumBase   = 2000000
 	enumStride = 1000000
-	enumCap    = 400000
+	enumCap    = 300000
 )
 
 // every k-th enumerated interleaving of configuration ci is also evaluated against the Coq model
